@@ -13,7 +13,7 @@ LEVEL_TEXT = ("Theorems for all values: an Rread frame is 11 + min(count, msize-
               "entries within min(count, msize-11) <= msize; the client's messageSize is min(own, announced) (refused <= 153), payloadSize <= msize-153, every chunk <= payloadSize so "
               "every Twrite (23+chunk), Tread (23) and its reply (11+n, n <= count) and every Treaddir with its fullest reply fit. Every run re-checks the proofs and compares the model "
               "and the property with the sizes observed on the real server and client.")
-LEVEL_NOTE = ("Trusted: Coq kernel + vm_compute; the hand model Frame/Sizes.v (tied by the differential only); ConstGen; CodecGen (layouts). largestFixedSize is RECOMPUTED in Coq (Frame/SizesGen.v: max over all registered types of FixedSize() / encoded length of the zero value, from the layouts "
+LEVEL_NOTE = ("Trusted: Coq kernel + vm_compute; the hand model Frame/Sizes.v, tied by go2coq ArithGen for its arithmetic (connState.maxReplyPayload, roundDown, every assignment to Client.payloadSize, the final value of count in tread.handle / treaddir.handle / clientFile.Readdir are TRANSLATED from the source on every run into Gallina over Z with uint32 wrap-around and proved equal to the model's functions for all 32-bit values: C13_source_arithmetic_is_model; the two clauses restated over the translated functions: C13_source_server_clamps_fit, C13_source_client_payload_fits, C13_source_client_readdir_fits; where count and t.Count are read is a reviewed table, C13_source_count_uses) and by the differential for the rest; ConstGen; CodecGen (layouts). largestFixedSize is RECOMPUTED in Coq (Frame/SizesGen.v: max over all registered types of FixedSize() / encoded length of the zero value, from the layouts "
               "go2coq reads off messages.go) and proved equal to the 153 the client model uses (C13_largest_fixed_size), with header + fixed part of every payloader below it (C13_largest_covers_payloaders; the payloaders-only maximum 16 is refuted); "
               "registry.register()'s own max loop is not read by a generator: the value the running registry holds and the fixed frame overheads are compared with the Coq values on every run (case `consts`). 'The msize it announced' is read as the msize of the LAST Rversion that announced one on the connection (an 'unknown' Rversion carries 0 and "
               "changes nothing): C13_session_msize / C13_session are theorems over Tversion histories and the harness replays 2-3 Tversions per connection. `agrees` demands the exact clamps (msize-11, roundDown(msize-153,512)): "
